@@ -122,9 +122,9 @@ pub fn build_subjects(ctx: &Ctx, thorough: bool, max_programs: usize) -> Vec<Sub
     if !thorough {
         // the quick tier still touches the configuration axes that change the vanishing polynomial:
         // narrow routing (different partial-product chunking), 1 and 3 challenges, quotient factor 7
-        // (the only factor for which the honest prover really truncates), zero knowledge
+        // (the only factor for which the honest prover really truncates); zero knowledge is thorough-only
         let lat = config_lattice(2);
-        for (pi, cname) in [(0usize, "routed25"), (2, "chal1"), (3, "qdf7"), (0, "chal3"), (1, "zk")] {
+        for (pi, cname) in [(0usize, "routed25"), (2, "chal1"), (3, "qdf7"), (0, "chal3")] {
             if pi >= progs.len() {
                 continue;
             }
@@ -414,7 +414,7 @@ pub fn run(ctx: &Ctx) -> i32 {
             cases.push((si, bi, Corr::None, Strat::S0));
             // every cell and every virtual target, individually (quick tier: every 2nd target for the
             // extra configuration subjects)
-            let tstep = if !thorough && s.cfg_name != "std" { 2 } else { 1 };
+            let tstep = if !thorough && s.cfg_name != "std" { 3 } else { 1 };
             for i in (0..n_targets).step_by(tstep) {
                 for k in &kinds {
                     cases.push((si, bi, Corr::Cell(i, *k), Strat::S0));
@@ -453,7 +453,7 @@ pub fn run(ctx: &Ctx) -> i32 {
                 v
             };
             for st in &combo_strats {
-                let step = if full { 1 } else if thorough { 3 } else { 5 };
+                let step = if full { 1 } else if thorough { 3 } else if s.cfg_name != "std" { 23 } else { 5 };
                 for i in (0..s.sc.degree * nw).step_by(step) {
                     // S6 is only interesting on lookup-related cells; keep all for simplicity of the rule
                     cases.push((si, bi, Corr::Cell(i, 0), *st));
@@ -465,6 +465,11 @@ pub fn run(ctx: &Ctx) -> i32 {
         }
     }
     ctx.count("cases_enumerated", cases.len() as u64);
+    if std::env::var("VERIF_DEBUG").is_ok() {
+        for (si, s) in subjects.iter().enumerate() {
+            eprintln!("subject {}@{} rows={} targets={} cases={}", s.name, s.cfg_name, s.sc.degree, s.identity.len(), cases.iter().filter(|c| c.0 == si).count());
+        }
+    }
     par_for_chunk(cases.len(), 8, |k| {
         let (si, bi, corr, st) = &cases[k];
         let s = &subjects[*si];
